@@ -4,6 +4,7 @@ import Proofs.C19Time
 import Proofs.C19Decode
 import Proofs.C19Gen
 import Proofs.C19Order
+import Proofs.C19Java
 import Proofs.C19Conc
 import Model.UuidErr
 /-!
@@ -183,6 +184,19 @@ theorem C19_cass_order (u v w : List UInt8) :
     (u.length = 16 → v.length = 16 → Spec.cassLe u v = true → Spec.cassLe v u = true →
       Spec.rfcTimestamp u = Spec.rfcTimestamp v ∧ u.drop 8 = v.drop 8) :=
   ⟨cassLe_refl u, cassLe_total u v, cassLe_trans u v w, cassLe_antisymm u v⟩
+
+/-- Two formulations of Cassandra's `TimeUUIDType` comparison agree, for all pairs of version-1 16-byte values:
+    the byte formulation `Spec.cassLe` (timestamp, then the low 8 bytes as signed bytes — Cassandra ≤ 2.x and the
+    comment in uuid.go) and the long-arithmetic formulation `Spec.javaLe` (Cassandra 3.x / 4.x `compareCustom`:
+    `Long.compare` of `reorderTimestampBytes(msb)`, then of `lsb ^ 0x0080808080808080`), both transliterated as
+    recalled.  So every theorem here about `cassLe` is a theorem about either. -/
+theorem C19_cass_java_agree (u v : List UInt8) (hu : u.length = 16) (hv : v.length = 16)
+    (vu : version u = 1) (vv : version v = 1) : Spec.javaLe u v = Spec.cassLe u v :=
+  java_agree u v hu hv vu vv
+
+example : Spec.javaLe (timeUUIDWith 5 0x8080 [0x80, 0x80, 0x80, 0x80, 0x80, 0x80]) (timeUUIDWith 5 0x7f7f [0x7f, 0x7f, 0x7f, 0x7f, 0x7f, 0x7f]) = true ∧
+    Spec.javaLe (timeUUIDWith 5 0x7f7f [0x7f, 0x7f, 0x7f, 0x7f, 0x7f, 0x7f]) (timeUUIDWith 5 0x8080 [0x80, 0x80, 0x80, 0x80, 0x80, 0x80]) = false := by
+  decide
 
 /-- The bounds of an instant are EXACT: a version-1 RFC 4122 UUID lies between `MinTimeUUID(t)` and
     `MaxTimeUUID(t)` under Cassandra's order IF AND ONLY IF its timestamp is `t`'s 100 ns tick
